@@ -69,6 +69,10 @@ def generate(tier, seed):
         lines += ["NEW", "EVAL (setq a '(1 2)) (setq b 5) (setq c '((k . v)))", "EVAL " + p, "EVAL " + p, "EVAL " + p, "DUMP a b c"]
     for c in macro_cases():
         lines += c
+    for e in ["(mapcar (lambda (&rest r) r) '(1 2 3))", "(seq-map (lambda (&rest r) r) '(1 2 3))", "(progn (setq saved nil) (mapcar (lambda (&rest r) (setq saved (cons r saved)) (car r)) '(1 2 3)) saved)",
+              "(mapcar (lambda (a &rest r) (list a r)) '(1 2 3))", "(seq-filter (lambda (&rest r) (setq saved (cons r saved))) '(1 2))", "(seq-reduce (lambda (&rest r) r) '(1 2 3) 0)",
+              "(progn (defun keepr (&rest r) r) (list (mapcar 'keepr '(a b c)) (funcall 'keepr 1 2) (sort (list 2 1) (lambda (&rest r) (< (car r) (car (cdr r)))))))"]:
+        lines += ["NEW", "EVAL (setq saved nil)", "EVAL " + e, "EVAL " + e, "EVAL saved"]
     for first in ["nil", "'()", "acc0", "(cdr '(1))"]:
         for call in ["(append %s la lb)", "(append %s la lb lc)", "(append %s nil la lb)", "(append %s la nil lb)", "(append %s '(q r) lb)", "(append %s la (list 9))", "(append %s la 'tail)"]:
             e = call % first
